@@ -518,7 +518,16 @@ func (s *Server) AllStderr() string {
 // Crashed reports a panic / fatal error / sanitizer report in the server's stderr and returns
 // the crash site (first tile38 frame) when it can.
 func (s *Server) Crashed() (bool, string) {
-	return CrashIn(s.StderrTail(1 << 20))
+	died, site := CrashIn(s.StderrTail(1 << 20))
+	if died && s.Dir != "" {
+		if _, err := os.Stat(s.Dir); os.IsNotExist(err) {
+			// the harness' scratch directory was removed under a running server (seen once when
+			// the sandbox was being snapshotted while two checks ran): the server then dies in its
+			// next log flush. That is an accident of the machinery, not a statement about the server.
+			return true, MachineStalled + ": the server's data directory " + s.Dir + " vanished under it (" + site + ")"
+		}
+	}
+	return died, site
 }
 
 var frameRe = regexp.MustCompile(`(github\.com/tidwall/\S+?)\((?:0x[0-9a-f]+|\.\.\.|\)|\{)`)
